@@ -385,7 +385,10 @@ Definition config_print (c : config) : bytes :=
   bs " max=" ++ nat_print (Nat.min 1 (List.length (r_cs s))) ++
   bs " closes=" ++ dotted (map (fun c => nat_print (c_nclose c)) (r_cs s)) ++
   bs " dialing=" ++ nat_print (match r_d s with DDial => 1 | _ => 0 end) ++
-  bs " left=" ++ nat_print (threads_left s).
+  bs " left=" ++ nat_print (threads_left s) ++
+  (* the carrier whose Close() the dial loop has called and which has not returned (slow carriers only: otherwise
+     LDCloseCarrier is an internal step and no settled state is in DClose) *)
+  bs " pend=" ++ dotted (match r_d s with DClose k => [nat_print k] | _ => [] end).
 
 Open Scope N_scope.
 Definition BAR : N := 124.
@@ -504,6 +507,64 @@ Definition redialq_run (ecap : nat) (toks : list rtok) : bytes :=
   if nofuel then MARK_FUEL else join [BAR] (map qconfig_print cs).
 Open Scope N_scope.
 
+(* ---------------------------------------------------------------- client map, MANY clients (count boundaries of a sweep)
+    turbotunnel cmb <timeout> <ops>: the same [send_queue] / [remove_expired] as `cm`, with bulk operations and a
+    SUMMARY of the map after every operation (printing the whole map after each of thousands of calls would be
+    quadratic):
+      S<lo>-<hi>@<now>:<m>   SendQueue(a, now + (a mod m)) for a = lo, lo+1, .., hi   (m >= 1: m = 1 gives one instant)
+      s<addr>@<now> | e<now>  as for cm
+    answer per operation:  n<records>/<addresses in the map, as ranges>/<identities of the closed queues, as ranges>
+    (queue identity = order of first SendQueue; C17_removed_by_next_sweep / C17_queue_removed_by_next_sweep are
+    universal in the number of records expired at one sweep: here 1025, 2048, ... of them) *)
+Open Scope nat_scope.
+Inductive cmbtok := BSend (lo : N) (n : nat) (now : Z) (m : Z) | BOne (a : N) (now : Z) | BExpire (now : Z).
+
+Definition MINUS : N := 45%N.
+
+Definition cmbtok_parse (t : bytes) : option cmbtok :=
+  match t with
+  | 83%N :: r =>                                                                  (* S *)
+      match split_on AT r with
+      | [rg; tm] =>
+          match split_on MINUS rg, split_on COLON tm with
+          | [lo; hi], [now; m] =>
+              match dec_parse lo, dec_parse hi, zdec_parse now, zdec_parse m with
+              | Some lo, Some hi, Some now, Some m =>
+                  if (N.leb lo hi && Z.ltb 0%Z m)%bool then Some (BSend lo (S (N.to_nat (hi - lo))) now m) else None
+              | _, _, _, _ => None
+              end
+          | _, _ => None
+          end
+      | _ => None
+      end
+  | 115%N :: r => option_map (fun p => BOne (fst p) (snd p)) (addr_now_parse r)   (* s *)
+  | 101%N :: r => option_map BExpire (zdec_parse r)                               (* e *)
+  | _ => None
+  end.
+
+Definition bsend_all (lo : N) (n : nat) (now m : Z) (s : cmap) : cmap :=
+  fold_left (fun s k => let a := (lo + N.of_nat k)%N in fst (send_queue a (now + Z.modulo (Z.of_N a) m) s)) (seq 0 n) s.
+
+Definition nranges_print (l : list nat) : bytes := dotted (map range_print (ranges l)).
+
+Definition cmb_print (s : cmap) : bytes :=
+  (110%N :: nat_print (List.length (byAge s))) ++ [SLASH] ++
+  nranges_print (map (fun e => N.to_nat (fst e)) (byAddr s)) ++ [SLASH] ++
+  nranges_print (sort_nat (map fst (dead s))).
+
+Fixpoint cmbrun (timeout : Z) (ops : list cmbtok) (s : cmap) : list bytes :=
+  match ops with
+  | [] => []
+  | o :: ops' =>
+      let s' := match o with
+                | BSend lo n now m => bsend_all lo n now m s
+                | BOne a now => fst (send_queue a now s)
+                | BExpire now => remove_expired now timeout s
+                end in
+      cmb_print s' :: cmbrun timeout ops' s'
+  end.
+Open Scope N_scope.
+
 (* the op list of a qc case may be split over several space separated fields (Wire.split_on is
    quadratic in the length of one field) *)
 Definition chunks_parse {A} (f : bytes -> option A) (fields : list bytes) : option (list A) :=
@@ -540,6 +601,11 @@ Definition run (args : list bytes) : bytes :=
           if beq op (bs "cm") then
             match zdec_parse a, list_parse cmtok_parse b with
             | Some timeout, Some ops => list_print (cmrun timeout ops cm_empty)
+            | _, _ => ERR_BADCASE
+            end
+          else if beq op (bs "cmb") then
+            match zdec_parse a, list_parse cmbtok_parse b with
+            | Some timeout, Some ops => list_print (cmbrun timeout ops cm_empty)
             | _, _ => ERR_BADCASE
             end
           else if beq op (bs "redial") then
